@@ -32,7 +32,12 @@ C_LAWS = ('they satisfy commutativity, associativity, idempotence, absorption an
 
 
 def gen_cases(tier, rng):
-    return common.standard_cases(tier, rng)
+    yield from common.standard_cases(tier, rng)
+    # member number 63 (the last bit of the first 64-bit word) decides a closure (seeded C07-K: a word-wise scan with a 63-bit mask):
+    # properties: a = {p63}, b = {p63, p0}, c = {p1}; objects: the 64 x 64 table where object i has exactly property i
+    m = 64
+    yield common.case_of_table([[j == 63 for j in range(m)], [j in (0, 63) for j in range(m)], [j == 1 for j in range(m)]], family='bit63-properties')
+    yield common.case_of_table([[i == j for j in range(m)] for i in range(m)], family='diagonal-64')
 
 
 def _mask(s):
